@@ -415,7 +415,8 @@ def check(ctx):
         for s in inv.attr_stores(P, fl):
             o6.count()
             k = (s.cls.name if s.cls else None, s.func.name if s.func else None)
-            if k not in allowed:
+            own_names = {n_ for c_, n_ in allowed if n_ != '__init__'}
+            if k not in allowed and not (k[0] in ('Environment', 'Event') and k[1] in inv.covered(P, own_names)):
                 o6.fail(P, s.ctx, s.stmt, f'Event.{fl} is written outside its owners', file=s.mod.path, line=s.line)
             elif k[1] != '__init__' and not (isinstance(s.stmt, ast.Assign) and isinstance(s.stmt.value, ast.Constant) and s.stmt.value.value is True):
                 o6.fail(P, s.ctx, s.stmt, f'Event.{fl} may only be raised (set to True) after construction', file=s.mod.path, line=s.line)
